@@ -368,6 +368,13 @@ GOMBOK_ASSUME = [
     'field names of the modelled grammar are ASCII (gombok rejects other names with a gofmt error)',
 ]
 
+def GOMBOK_C08_H(quick=240, thorough=4800):
+    return H('gombokrun', 'oracle_derive', quick, thorough, spec_level=True,
+             extra=dict(quick=['-prop', 'C08'], thorough=['-prop', 'C08']),
+             timeout=dict(quick=900, thorough=6000),
+             nontrivial=lambda op, impl: op.startswith('(derive ') or (op.startswith('(eval') and impl.count(';') >= 3))
+
+
 def GOMBOK_H(prop, oracle, quick=240, thorough=4800):
     return H('gombokrun', oracle, quick, thorough, spec_level=True,
              extra=dict(quick=['-prop', prop], thorough=['-prop', prop]),
@@ -391,18 +398,27 @@ CHECKS.update({
         assumptions=GOMBOK_ASSUME,
     ),
     'C08': dict(
-        spec=['FpVerif.Spec.C08'],
-        harnesses=[GOMBOK_H('C08', 'oracle_record')],
+        spec=['FpVerif.Spec.C08', 'FpVerif.Spec.C08Inst'],
+        harnesses=[GOMBOK_C08_H()],
         level='translation_validation',
-        level_note='Lean: derived Eq/Ord/Hashable/Monoid/Clone over the record model are lawful and field-wise for every spec from lawful components; '
-                   'harness: @fp.Derive directives generated from the grammar (plain, nested, generic, recursive through pointers, recursive=true, '
-                   'local overriding instances, instances in the type\'s own package), laws and field-wise references evaluated on the generated instances',
-        modelled='FpVerif/Model/Derive.lean: tuple/hlist combinators of eq/ord/hash/monoid/clone as recursion over the component list, ContraMap/IMap/'
-                 'Generic through AsTuple/Unapply and Builder{}.FromTuple/Apply; a small heap model for "shares no mutable storage"; clone.Ptr as '
-                 'written (shallow) next to the lawful deep version. NOT modelled: instance resolution inside gombok (checked by the harness through '
-                 'observably different instances), Show.',
-        assumptions=GOMBOK_ASSUME + ['component instances are lawful (ord.Seq/ord.Slice are not: order LAWS are not demanded of structs containing them, '
-                                     'the lexicographic composition still is)'],
+        level_note='Lean: derived Eq/Ord/Hashable/Monoid/Clone are lawful and field-wise for every declaration, every type of field values and '
+                   'all lawful components (Spec/C08); every instance expression the oracle evaluates (primitive instances of eq/ord/hash/monoid/clone, '
+                   'local overriding and own-package instances, Option/Seq/Slice/Ptr/GoMap/Tuple2, nested derived structs, recursion through pointers, '
+                   'type-parameter dictionaries) denotes a lawful component, hence the instance of every declaration is lawful (Spec/C08Inst). '
+                   'Harness: @fp.Derive directives generated from the grammar; for every derived instance and sample the REAL generated '
+                   'EqT()/OrdT()/HashableT()/MonoidT()/CloneT() answers a (derive …) line (Eqv/Less on the pairs of a triple, uint32 hashes, '
+                   'Empty/Combine/associativity/identity records, Clone with alias classes) and oracle_derive answers the same line by running '
+                   'the model definitions on the component instances the harness computed from the declaration by the documented resolution '
+                   'rules; plus the model-free direct checks (field-wise references, laws, no shared storage).',
+        modelled='FpVerif/Model/Derive.lean: tuple/hlist combinators of eq/ord/hash/monoid/clone as recursion over the component list (ord.New wrapping '
+                 'of every level included), ContraMap/IMap/Generic through AsTuple/Unapply and Builder{}.FromTuple/Apply, generic structs as functions '
+                 'of parameter dictionaries, a heap model for "shares no mutable storage". FpVerif/Model/DeriveInst.lean: the component instances '
+                 '(hash.Number = hashUint64(uint64(key)), hash.String/Bytes = FNV-1, h*31+… in uint32, wrap-around monoid.Product, lexicographic '
+                 'ord.Seq, None/nil-first ord.Option/ord.Ptr, eq.GoMap, monoid.Option/MergeSlice/MergeGoMap, clone.Slice/GoMap/Option/Ptr/Tuple2 …). '
+                 'NOT modelled: instance resolution inside gombok (the harness computes the expected resolution from the declaration; a wrong '
+                 'resolution shows as a mismatch through observably different instances), Show.',
+        assumptions=GOMBOK_ASSUME + ['monoid.MergeGoMap is lawful only up to map content (property C11): the op lines compare its results, '
+                                     'the Lean law theorem of C08Inst gives it the empty carrier'],
     ),
     'C15': dict(
         spec=['FpVerif.Spec.C15'],
